@@ -118,9 +118,15 @@ def execute(check, case, trace=False):
     class H(logging.Handler):
         def emit(self, r):
             try:
-                recs.append((r.levelno, r.name, r.getMessage()))
+                msg = r.getMessage()
             except Exception:
-                recs.append((r.levelno, r.name, str(r.msg)))
+                msg = str(r.msg)
+            if r.exc_info:
+                try:
+                    msg += '\n' + ''.join(traceback.format_exception(*r.exc_info))[-1500:]
+                except Exception:
+                    pass
+            recs.append((r.levelno, r.name, msg))
 
     root = logging.getLogger()
     for h in list(root.handlers):
